@@ -33,5 +33,6 @@ Definition wfb_obs (tol : Qc) (st equ : list (triple QIops)) (coords : option (l
   | Some cs =>
       Nat.eqb (length cs) n2 &&
       all2b (fun a b => all2b (fun u v => qi_close tol (u, Q2Qc 0) ((- v)%Qc, Q2Qc 0)) a b) cs (rev cs) &&
-      forallb (fun u => Qc_eq_bool u (Q2Qc 0)) (nth ((n2 - 1) / 2) cs [])
+      (* merged wavenumbers are amplitude-weighted means: the centre is 0 up to rounding (1e-17 observed) *)
+      forallb (fun u => qi_close tol (u, Q2Qc 0) (Q2Qc 0, Q2Qc 0)) (nth ((n2 - 1) / 2) cs [])
   end.
